@@ -96,5 +96,8 @@ def gen (k : Nat) : G (List String) := do
         out := out ++ ["stage " ++ ((pktLine pipe e clock (Spec.Sflow.encode dg)).drop 4).toString]
     let g ← pick [2, 4, 8, 16, 32]
     out := out ++ ["par " ++ toString g]
+  -- announcements of one known exporter by several workers at the same moment, on the real stores (race-detector build):
+  -- every announcement must be there afterwards (parallel processing = some sequential order)
+  out := out ++ ["race tplstress 200 -", "expect res ok lost=[]", "race ratestress 200 -", "expect res ok lost=[]"]
   pure out
 end Goflow.Gen.C15
